@@ -1,6 +1,7 @@
 package c07
 
 import (
+	"encoding/json"
 	"bytes"
 	"crypto/x509"
 	"fmt"
@@ -276,6 +277,16 @@ func buildCatalogue() []deviation {
 		m.Set("io.example.extra", `{"a":[1,"b"]}`, envcodec.Array(envcodec.Int(1), envcodec.Tstr("b")))
 	})
 	add("extra-critical-attribute", true, both, func(m *Model) { m.Set("io.example.crit", `"v"`, envcodec.Tstr("v")); addCrit(m, "io.example.crit") })
+	add("extra-attributes-integer-and-text-labels", true, coseOnly, func(m *Model) {
+		// several extended attributes, integer- and text-labelled side by side
+		m.COSE = append(m.COSE, envcodec.KV{K: envcodec.Int(70001), V: envcodec.Tstr("int-labelled")},
+			envcodec.KV{K: envcodec.Tstr("io.example.second"), V: envcodec.Int(2)},
+			envcodec.KV{K: envcodec.Int(-70002), V: envcodec.Array(envcodec.Int(1))})
+	})
+	add("extra-attributes-several", true, jwsOnly, func(m *Model) {
+		m.JWS = append(m.JWS, envcodec.Member{Name: "io.example.second", Raw: json.RawMessage(`2`)}, envcodec.Member{Name: "io.example.Second", Raw: json.RawMessage(`"3"`)},
+			envcodec.Member{Name: "7", Raw: json.RawMessage(`[7]`)})
+	})
 	add("headers-reversed", true, both, func(m *Model) {
 		for i, j := 0, len(m.JWS)-1; i < j; i, j = i+1, j-1 {
 			m.JWS[i], m.JWS[j] = m.JWS[j], m.JWS[i]
